@@ -12,6 +12,7 @@ import sys
 
 REGISTRIES = {
     "r7": ["A", "Z", "H", "O", "S", "V", "W"],
+    "r8": ["A", "Z", "H", "O", "S", "V", "W", "X"],
     "r10": ["A", "Z", "H", "O", "S", "V", "W", "X", "Y", "T"],
 }
 COMP_IX = {"A": 0, "Z": 1, "H": 2, "O": 3, "S": 4, "V": 5, "W": 6, "X": 7, "Y": 8, "T": 9}
@@ -288,7 +289,7 @@ def main():
     rng = random.Random(f"{reg}-{seed}")
     comps = REGISTRIES[reg]
     nc = len(comps)
-    scale = 1.0 if reg == "r7" else 0.6
+    scale = {"r7": 1.0, "r8": 0.7}.get(reg, 0.6)
 
     # insert sites
     if nc <= 7:
